@@ -33,6 +33,19 @@ use crate::{
 pub struct BinDecoder<'a> {
     buffer: &'a [u8],    // The entire original buffer
     remaining: &'a [u8], // The unread section of the original buffer, so that reads do not cause a bounds check at the current seek offset
+    // Number of compression pointers that names read through this decoder may still follow. A
+    // single name may need many hops, but every name of a message walking a long pointer chain
+    // makes decoding quadratic; the budget bounds the total by a multiple of the input length.
+    pointer_budget: usize,
+}
+
+/// Compression pointer hops granted per octet of input, plus a constant for short inputs.
+const POINTER_HOPS_PER_OCTET: usize = 8;
+const POINTER_HOPS_MIN: usize = 128;
+
+fn pointer_budget_for(len: usize) -> usize {
+    len.saturating_mul(POINTER_HOPS_PER_OCTET)
+        .saturating_add(POINTER_HOPS_MIN)
 }
 
 impl<'a> BinDecoder<'a> {
@@ -45,7 +58,18 @@ impl<'a> BinDecoder<'a> {
         BinDecoder {
             buffer,
             remaining: buffer,
+            pointer_budget: pointer_budget_for(buffer.len()),
         }
+    }
+
+    /// The number of compression pointers names read through this decoder may still follow
+    pub(crate) fn pointer_budget(&self) -> usize {
+        self.pointer_budget
+    }
+
+    /// Record that a name read through this decoder followed `hops` compression pointers
+    pub(crate) fn charge_pointer_hops(&mut self, hops: usize) {
+        self.pointer_budget = self.pointer_budget.saturating_sub(hops);
     }
 
     /// Pop one byte from the buffer
@@ -95,6 +119,7 @@ impl<'a> BinDecoder<'a> {
         BinDecoder {
             buffer: self.buffer,
             remaining: &self.buffer[index_at as usize..],
+            pointer_budget: self.pointer_budget,
         }
     }
 
@@ -172,6 +197,7 @@ impl<'a> BinDecoder<'a> {
         let decoder = Self {
             buffer: &self.buffer[..self.index() + length],
             remaining: read,
+            pointer_budget: pointer_budget_for(length),
         };
 
         self.remaining = remaining;
